@@ -358,7 +358,7 @@ def build_patterned_weight(ps, kind, dtype, info, name, leaf=False):
 
 
 def build(spec, kind='real', dtype=None, weight_hook=None, explicit_ids=False, range_domains=False,
-          node_prefix='v', edge_prefix='e', leaf_patterns=False):
+          node_prefix='v', edge_prefix='e', leaf_patterns=False, term_edge_prefix=None):
     """Build an FGG from a spec through the public API.
     weight_hook(name, tensor) -> tensor|PatternedTensor lets callers wrap leaves / patterns.
     Returns (fgg, info) where info has the Node/Edge objects per rule for later inspection."""
@@ -383,8 +383,9 @@ def build(spec, kind='real', dtype=None, weight_hook=None, explicit_ids=False, r
             g.add_node(v); nodes.append(v)
         edges = []
         for k, e in enumerate(r['edges']):
+            pre = term_edge_prefix if (term_edge_prefix is not None and e['label'] in spec['terminals']) else edge_prefix
             ed = fggs.Edge(els[e['label']], [nodes[a] for a in e['att']],
-                           id=f'{edge_prefix}{ri}_{k}' if _explicit(k + 1) else None)
+                           id=f'{pre}{ri}_{k}' if _explicit(k + 1) else None)
             g.add_edge(ed); edges.append(ed)
         g.ext = [nodes[p] for p in r['ext']]
         rule = fggs.HRGRule(els[r['lhs']], g)
